@@ -318,7 +318,11 @@ class LoopMixin:
         L = self.loop_ns(st, k, ghosts)
         if sp is not None:
             L.__dict__["at"] = lambda i, sp=sp, st=st: specval(sp.elem(i), st, self)
-        r = spec.inv(L)
+        try:
+            r = spec.inv(L)
+        except AttributeError as e:
+            # a local named by the invariant no longer exists (rename/refactor): binding failure -> undecided
+            raise Unsupported(f"invariant binding failure: {e}")
         st.fact(S.drain())
         if not isinstance(r, (list, tuple)):
             r = [r]
